@@ -45,6 +45,7 @@ func runC06(r *simkit.Run) {
 	nd := w.addNode("recv", recv, dkgSuccess, nil)
 	var access *cNode
 	if w.fl == flGnosis {
+		w.accessReannounce = c.Chance(300, "access-keyper-set-reannounced")
 		access = w.addAccessNode("access")
 	}
 	r.Eventf("flavour=%s n=%d t=%d receiver=%d", w.fl, n, t, recv)
